@@ -1,6 +1,6 @@
 use log::trace;
 use std::cmp::{Ordering, min, max};
-use std::collections::HashMap;
+use std::collections::{HashMap, HashSet};
 use std::fmt;
 
 use super::{VariableName, VariableType};
@@ -454,6 +454,9 @@ pub struct DegreeEnvironment {
     // bounds of the degree of each variable.
     degree_ranges: HashMap<VariableName, DegreeRange>,
     var_types: HashMap<VariableName, VariableType>,
+    // Tracks the variables which are assigned to by some statement (even if
+    // the degree of the assigned value is unknown).
+    assigned: HashSet<VariableName>,
 }
 
 impl DegreeEnvironment {
@@ -484,6 +487,17 @@ impl DegreeEnvironment {
     #[must_use]
     pub fn degree(&self, var: &VariableName) -> Option<&DegreeRange> {
         self.degree_ranges.get(var)
+    }
+
+    /// Records that the given variable is assigned to by a statement.
+    pub fn set_assigned(&mut self, var: &VariableName) {
+        self.assigned.insert(var.clone());
+    }
+
+    /// Returns true if the given variable is assigned to by a statement seen so far.
+    #[must_use]
+    pub fn is_assigned(&self, var: &VariableName) -> bool {
+        self.assigned.contains(var)
     }
 
     /// Returns true if the given variable is a local variable.
